@@ -84,8 +84,9 @@ impl World {
             max: [16384, 16385, 0],
             rpc: [r.gen_range(1..100), r.gen_range(100..200), 0],
             live: [a, a + 1, 0],
-            dens: [Some(r.gen()), Some(r.gen()), None],
-            size: [Some(r.gen_range(1..1_000_000)), Some(r.gen_range(1_000_000..u64::MAX)), None],
+            // the optional estimates: a value, the ZERO value (which a flattening encoder confuses with "unset"), unset
+            dens: [Some(r.gen()), Some([0u8; 32]), None],
+            size: [Some(r.gen_range(1..u64::MAX)), Some(0), None],
             sigs: HashMap::new(),
             key_ids: RefCell::new(HashMap::new()),
             sig_ids: RefCell::new(HashMap::new()),
